@@ -368,6 +368,7 @@ package native
 //@ opt frame off
 //@ opt callbacks pure
 //@ requires[typeinv] ic != nil && ic.VM != nil && ic.Tx != nil   // a payment callback runs inside a transaction
+//@ opt stable ic.Tx, ic.VM
 //@ call (*Int).Add requires[sum] arg0 == deposit.Amount && arg1 == deposit.Amount && arg2 == amount
 //@ call putDepositFor requires[owner] arg2 == deposit && arg3 == to && ncalls("(*Int).Add") == 1 && deposit.Till == till
 //@ func (*Notary).lockDepositUntil
